@@ -30,6 +30,11 @@ C15_Exact ==
         \/ Report("C15", "structure or literal values of the parsed tree differ from the written script (flattened tree, first difference)", FirstDiff(T.obs.flat, T.expflat)))
   /\ (T.obs.panic # "" \/ T.obs.holes \/ T.obs.nodes = T.expnodes
         \/ Report("C15", "node kinds or ranges differ from first-character .. just-past-last-token (pre-order node list, first difference)", FirstDiff(T.obs.nodes, T.expnodes)))
+\* ---- C14 on well-formed texts: accepted with zero errors under every layout
+C14_ValidAccepted ==
+  /\ Check("C14", "the parser panicked on a well-formed script", T.obs.panic = "")
+  /\ Check("C14", "a well-formed script was reported with syntax errors", T.obs.panic # "" \/ T.obs.nerr = 0)
+
 \* ---- C16: the checker on texts whose static validity and name diagnostics the specification computed
 NameKinds == {"UnboundVariable", "DuplicateVariable", "UnusedVar"}
 D == T.obs.diags                      \* <<kind, severity, sl, sc, el, ec, name>>
